@@ -45,6 +45,7 @@ STRENGTHENED = {
     'C22-2': 'missed by C22 at first (caught by C16); the configuration generator now emits related rule pairs (several selectors + narrow local_cidr, followed by a rule repeating one selector with another local_cidr).',
     'C32-2': 'missed at first (single-address peer); the peer is now certified for two addresses and half of the cases dial the second one.',
     'C29': 'missed at first (the window between the pending-handshake lookup and its lock is too narrow for free scheduling); a yield point was added there (hook commit 429c36f) and a directed script forces time-out + re-allocation inside it.',
+    'C44-2': 'missed at first (every generated handshake was accepted); a third of the generated handshakes are now built to be refused (index collision, older than the held tunnel, replayed packet).',
     'C47': 'missed at first (short inputs were only presented as len==cap slices); short inputs at the front of a larger stale buffer were added.',
 }
 
